@@ -179,13 +179,13 @@ def c19(ctx):
     if not quick:
         s = open(cfgp).read().replace("Names <- NamesQuick", "Names <- NamesAll").replace("Sizes = {0, 5, 40}", "Sizes = {0, 12, 300}")
         open(cfgp, "w").write(s)
-    r = ctx.tlc_expect_ok("MC_Zip.tla", "MC_Zip.cfg", timeout=7000, xmx="30g")
+    r = ctx.tlc_expect_ok("MC_Zip.tla", "MC_Zip.cfg", timeout=7000, xmx="24g")
     rp = os.path.join(ctx.scratch, "zip.json")
     ctx.vdrive(["zipvec", "-in", r["out"], "-out", rp, "-seed", ctx.seed], timeout=7000)
     os.remove(r["out"])
     rep = ctx.report(rp)
     # OOXML packages of 6-7 entries with the marker part late (exhaustive over a focused name menu)
-    fz = ctx.tlc_expect_ok("MC_Zip.tla", "MC_Zip_focus.cfg", timeout=7000, xmx="30g", tag="MC_Zip_focus")
+    fz = ctx.tlc_expect_ok("MC_Zip.tla", "MC_Zip_focus.cfg", timeout=7000, xmx="24g", tag="MC_Zip_focus")
     rpf = os.path.join(ctx.scratch, "zipfocus.json")
     ctx.vdrive(["zipvec", "-in", fz["out"], "-out", rpf, "-seed", ctx.seed + 3], timeout=7000)
     os.remove(fz["out"])
